@@ -18,14 +18,24 @@ class Hang(BaseException):
     pass
 
 
+class TooManyHangs(Exception):
+    pass
+
+
+HANGS = []
+
+
 def real_outcome(text, limit=5.0):
     def _alarm(*a):
         raise Hang()
+    if len(HANGS) >= 12:
+        raise TooManyHangs()
     old = signal.signal(signal.SIGALRM, _alarm)
     signal.setitimer(signal.ITIMER_REAL, limit)
     try:
         return outcome(text)
     except Hang:
+        HANGS.append(text)
         return "other:hang", "did not terminate"
     finally:
         signal.setitimer(signal.ITIMER_REAL, 0)
@@ -439,10 +449,57 @@ def nodes(ms, par=None, in_f=False):
         yield from nodes(m["ch"], m, in_f or m["t"] == "fstr")
 
 
+def fcomponent_regions(text):
+    """Replacement fields of f-strings: the spec leaves the positions of an f-string's string pieces open, but a
+    field (FComponent) is a child like any other -- inside its f-string (or the field whose format spec holds it),
+    fields of one parent in source order, the field's value model inside the field.  -> list of complaints"""
+    import hy
+    from hy.models import FComponent, FString, Sequence
+    out = []
+    pos = lambda m: ((m.start_line, m.start_column), (m.end_line, m.end_column))
+
+    def walk(m):
+        if not isinstance(m, Sequence):
+            return
+        if isinstance(m, (FString, FComponent)) and getattr(m, "start_line", None) is not None:
+            (ps, pe) = pos(m)
+            last = None
+            for i, c in enumerate(m):
+                if getattr(c, "start_line", None) is None:
+                    continue
+                if isinstance(c, FComponent) or (isinstance(m, FComponent) and i == 0):
+                    cs, ce = pos(c)
+                    if not (ps <= cs and ce <= pe and cs <= ce):
+                        out.append(f"{type(c).__name__} at {cs}-{ce} is not inside its parent {type(m).__name__} at {ps}-{pe}")
+                    if isinstance(c, FComponent):
+                        if last is not None and cs <= last:
+                            out.append(f"replacement fields of one f-string out of source order ({cs} after {last})")
+                        last = ce
+        for c in m:
+            walk(c)
+    try:
+        for m in hy.read_many(text):
+            walk(m)
+    except Exception:
+        pass
+    return out
+
+
+FSTRING_TEXTS = ['f"a{b}c"', 'f"a{b = }c"', 'f"{a =}"', 'f"{ a = !r}"', 'f"x{a = !r:>{w}}y"', 'f"{a = :{w}.{p}}"',
+                 '(print f"v:\n{(+ x\n   1) = :>5} {y}")', '#[f[total: {(sum xs) =}]f]', '#[f[{a}{b =}{c !s}]f]',
+                 'f"{a}{b}{c = }{d}"', 'f"{(f"{x = }")}"', '[f"{a = }" f"{b}"]', 'f"\n\n{a =\n}"']
+
+
 def main_c21(run):
     rng = random.Random(run.seed)
     q = run.quick
     rows, real, dis = gather(run, q)
+    nf = 0
+    for t in [t for t, (st, _) in real.items() if st == "ok" and "{" in t] + FSTRING_TEXTS:
+        nf += 1
+        for msg in fcomponent_regions(t):
+            run.violation("fcomp:" + t, f"{t!r}: {msg}", {"text": t})
+    run.cov["fstring_field_regions_checked"] = nf
     for t, d in dis["model"]:
         if "position" in d:
             run.violation("pos:" + t, f"{t!r}: {d} (spec vs reader)", {"text": t})
@@ -497,11 +554,20 @@ def main_c21(run):
     return run.finish("model_checking",
                       "ChildrenInside / ChildrenOrdered / RegionReadsBack are TLC-checked invariants of the reader spec; "
                       "on the real reader: every model of every enumerated text and of generated multi-line programs -- "
-                      "region re-read, containment, source order; reported positions compared with the spec's (TLC file mode)")
+                      "region re-read, containment, source order; reported positions compared with the spec's (TLC file mode); "
+                      "replacement fields of f-strings (with = debugging, conversions, nested specs): inside their parent, "
+                      "in source order, value inside the field")
 
 
 def main(run):
-    return {"C18": main_c18, "C19": main_c19, "C20": main_c20, "C21": main_c21}[run.pid](run)
+    try:
+        return {"C18": main_c18, "C19": main_c19, "C20": main_c20, "C21": main_c21}[run.pid](run)
+    except TooManyHangs:
+        # a reader that loops is a violation of each of these properties (reading terminates); do not spend
+        # the time limit on every further text
+        for t in HANGS:
+            run.violation("hang:" + t, f"reading {t!r} does not terminate (no result within 5 s)", {"text": t})
+        return run.finish("model_checking", f"stopped early: the reader did not terminate on {len(HANGS)} texts")
 
 
 def replay(run, path):
